@@ -270,7 +270,8 @@ def run(ctx):
     seeds = _resp_seeds()
     seeds[("self", "_connection")] = AV("obj", "conn", truth=True, none=False)
     seeds[("self", "_pool")] = AV("obj", "pool", truth=True, none=False)
-    outs, it = run_function(m, rfi, rrule, f"{RS}.HTTPResponse", seeds=seeds)
+    from ..rows import helper_closure
+    outs, it = run_function(m, rfi, rrule, f"{RS}.HTTPResponse", inline=set(helper_closure(m, [rfi])), seeds=seeds)
     ctx.states += it.budget.steps
     gives = [o for o in outs if "put" in evs(o)]
     ctx.sites(R8, len(gives), 1, "paths of release_conn that give the connection back")
